@@ -438,6 +438,16 @@ func (c *Cluster) dagReplay(variants int) {
 		if kind == "delay" || (kind == "smallbadger" && r.Bool(0.6)) {
 			order = c.dag.delayedOrder(r, base)
 		}
+		if len(c.synthNears) > 0 && vi < 2*len(c.synthNears) && vi < 6 && whole {
+			// two lagging views around a fragile vote: one learns about the lopsided
+			// voter first, the other about the real decider first
+			kind = "near-early"
+			if vi%2 == 1 {
+				kind = "near-late"
+			}
+			batch = 1
+			order = c.dag.prioritised(r, base, c.synthNears[vi/2][vi%2])
+		}
 		c.stats.fault("insertion-order-variant")
 		name = fmt.Sprintf("%s[%s cache=%d batch=%d events=%d/%d window=%d]", name, storeKind, cache, batch, len(order), len(base), window)
 		v := c.newInstance(name, storeKind, cache)
